@@ -77,3 +77,5 @@ def run(ctx):
     import ast
     ctx.check('PaddingError-is-Exception', [b.id for b in c.bases if isinstance(b, ast.Name)] == ['Exception'],
               'PaddingError is not an Exception subclass', PAD)
+
+    dependencies(ctx, ['crysp/bits.py', 'crysp/padding.py'], 'C09')
